@@ -55,8 +55,10 @@ func (discH) Generate(property string, seed uint64, tier string) *Case {
 		case x < 70:
 			op.Kind = "subscribe"
 			op.Speed = []string{"prompt", "prompt", "slow", "stuck"}[g.IntN(4)]
-		case x < 85:
+		case x < 82:
 			op.Kind = "unsubscribe"
+		case x < 85:
+			op.Kind = "unsubscribe_all" // every subscriber leaves at the same moment
 		default:
 			op.Kind, op.Ms = "wait", 200+g.IntN(4000)
 		}
@@ -201,6 +203,27 @@ func (discH) Execute(c *Case, res *Result) {
 					s.mu.Unlock()
 				}()
 				s.unsubAt = time.Now()
+			case "unsubscribe_all":
+				var ks []int
+				for k := range subs {
+					ks = append(ks, k)
+				}
+				sort.Ints(ks)
+				for _, k := range ks {
+					s := subs[k]
+					delete(subs, k)
+					res.Probes["unsubscribe"]++
+					res.Probes["unsubscribe_at_the_same_moment"]++
+					close(s.unsubCalled)
+					s.unsubAt = time.Now()
+					go func() {
+						hel.Unsubscribe(s.id)
+						s.mu.Lock()
+						s.unsubDone = true
+						s.unsubAt = time.Now()
+						s.mu.Unlock()
+					}()
+				}
 			case "wait":
 				time.Sleep(time.Duration(op.Ms)*time.Millisecond + offGrid(0))
 			}
